@@ -185,7 +185,10 @@ def oracle(c, o):
         lam, phi = Fr(cc["lam"]), Fr(cc["phi"])
         umaxA = max(abs(C.ffloat(v)) for v in oA["U"])
         # translations are expressed in the new length unit, rotations are not: their error bound does not shrink with lam
-        diff = M.compare(oA, oB, units_transform(lam, phi), (lam * tA + tB + Fr(1, 10 ** 9) * lam * umaxA, tA + tB + Fr(1, 10 ** 9) * umaxA), what)
+        merged = []
+        diff = M.compare(oA, oB, units_transform(lam, phi), (lam * tA + tB + Fr(1, 10 ** 9) * lam * umaxA, tA + tB + Fr(1, 10 ** 9) * umaxA), what, merged_out=merged)
+        if merged:
+            KNOWN.append("K-C09-jump-below-error-merged: in %s a jump of bar %s's %s diagram at t=%s is smaller than the converted --error and listed as one value" % ((cc["system"],) + merged[0]))
         if diff and (tiny_entries(oA) or tiny_entries(oB)):
             # both systems solve, but one of them lost stiffness terms to the absolute cut-off: the listed finding's input class
             KNOWN.append("K-C09-assembly-cutoff: a generated structure solves to different results in a unit system where some slice stiffness term is under the absolute 1e-10 cut-off")
